@@ -72,8 +72,16 @@ class Harness:
             self.methods[("0", be)] = direct_method("a() = b(i) * c(i)", [("b", "s"), ("a", ""), ("c", "s")], B)
             self.methods[("z", be)] = tensor_method("a(i,j) = b(i,j) * 2", {"a": "sd", "b": "ss"}, B)
             self.methods[("m", be)] = tensor_method("a(i,j) = b(i,j) * 2", {"a": "sd", "b": "ds"}, B)
-            self.methods[("fs", be)] = tensor_method("a(i) = b(i) * c(i)", {"a": "s", "b": "s", "c": "d"}, B)
-            self.methods[("fd", be)] = tensor_method("a(i) = b(i) * c(i)", {"a": "d", "b": "d", "c": "d"}, B)
+        from tensora.compile import evaluate_cffi, evaluate_tensora
+
+        self.evaluate = {"llvm": evaluate_tensora, "cffi": evaluate_cffi}
+        # first use of the porcelain path (FEED) compiles; like the methods above that happens before tracking starts
+        for be in backends:
+            for kind in "sd":
+                src = self.methods[(kind, be)](b=self.b, c=self.c)
+                self.evaluate[be]("a(i) = b(i) * c(i)", kind, b=src, c=self.two)
+                del src
+        gc.collect()
         self.double_frees_seen = self.shim.verif_double_frees()
         self.shim.verif_track(1)
         self.reset()
@@ -224,7 +232,10 @@ class Harness:
             _, x, y, be = op
             src = self.real[y]
             kind = self.objs[self.slots[y][0]].kind
-            t = self.methods[("f" + kind, be)](b=src, c=self.two)
+            # through the porcelain (evaluate_tensora / evaluate_cffi): the entry point users feed results into;
+            # EVAL covers the TensorMethod objects called directly
+            ev = self.evaluate[be]
+            t = ev("a(i) = b(i) * c(i)", kind, b=src, c=self.two)
             self.drop(x)
             o = self.new_kernel_obj(t, kind, be)
             self.slots[x] = (o.oid, "T")
